@@ -5,3 +5,9 @@ Definition x_C04_lts (v : val) : val := lts_run (norm_case v).
 (* v = (case observed): the oracle of Properties/C04.v, theorem C04_model_passes_on_the_wire_raw *)
 Definition x_C04_ok (v : val) : val :=
   vbool (ok_C04x (dec_lcase (norm_case (nthv 0 v))) (dec_obs (nthv 1 v))).
+
+(* the conversion chain (Model/C04Chain.v): prediction = (RTP side, FLV side); oracle [chain_ok] of
+   Properties/C04.v, theorem C04_chain_model_passes *)
+From V Require Import C04Chain.
+Definition x_C04_chain (v : val) : val := chain_run v.
+Definition x_C04_chain_ok (v : val) : val := vbool (chain_ok (nthv 0 v) (nthv 1 v)).
